@@ -3,6 +3,8 @@ import Abyss.Props.GenCorollaries
 import Abyss.Props.GenCorollaries3
 import Abyss.Props.C04Adapt
 import Abyss.Lemmas.ReadFillL
+import Abyss.Props.GenBudget
+#print axioms Abyss.C15_generated_session_after_budget
 #print axioms Abyss.C15_generated_readFillBuffer
 #print axioms Abyss.readFillBuffer_apply
 #print axioms Abyss.RaBuf.readFillBuffer_flat
